@@ -215,7 +215,11 @@ fn operand_hash(case: &Value) -> String {
     format!("{:016x}", h)
 }
 /// the fields every event of a case carries
-fn meta_of(case: &Value) -> Value { json!({"cid": geti(case, "cid"), "n": geti(case, "n"), "fam": gets(case, "fam"), "h": operand_hash(case)}) }
+fn meta_of(case: &Value) -> Value {
+    let mut m = json!({"cid": geti(case, "cid"), "n": geti(case, "n"), "fam": gets(case, "fam"), "h": operand_hash(case)});
+    if let Some(k) = case.get("mixk") { m["k"] = k.clone(); m["mix"] = json!(true); }
+    m
+}
 fn base_event<T: GEl>(meta: &Value, op: &str) -> Value { let mut e = meta.clone(); e["op"] = json!(op); e["ty"] = json!(T::NAME); e }
 /// a Rat element as [n, d] (saturating to [BAD, 1]); only called for the exact element type
 fn rat_of<T: GEl>(v: &T) -> Value { jrat(v.as_rat()) }
@@ -243,7 +247,7 @@ fn q_solve<T: GEl>(meta: &Value, a0: &Matrix<T>, b: &Vector<T>, want: Option<&Va
                 e["panic"] = json!(false); e["len"] = json!(x.size());
                 if is_rat::<T>() {
                     e["a"] = jmat(a0, Part::Re); e["b"] = jvec(b, Part::Re);
-                    e["x"] = Value::from(x.vec.iter().map(rat_of).collect::<Vec<Value>>());
+                    e["x"] = Value::from(x.vec.iter().take(n).map(rat_of).collect::<Vec<Value>>());
                     if let Some(w) = want { e["want"] = w.clone(); }
                 } else if x.size() == n {
                     let xc = vec_cdd(x);
@@ -256,11 +260,16 @@ fn q_solve<T: GEl>(meta: &Value, a0: &Matrix<T>, b: &Vector<T>, want: Option<&Va
         out.ev(e);
         results.push(r.ok());
     }
+    if results[0].is_none() || results[1].is_none() {
+        // a solver that panicked cannot agree with the other one: logged, and rejected by the trace specification
+        let mut e = base_event::<T>(meta, "agree"); e["panic"] = json!(true); out.ev(e);
+    }
     if let (Some(x1), Some(x2)) = (&results[0], &results[1]) {
         let mut e = base_event::<T>(meta, "agree"); e["panic"] = json!(false);
         if is_rat::<T>() {
-            e["x1"] = Value::from(x1.vec.iter().map(rat_of).collect::<Vec<Value>>());
-            e["x2"] = Value::from(x2.vec.iter().map(rat_of).collect::<Vec<Value>>());
+            e["len1"] = json!(x1.size()); e["len2"] = json!(x2.size());
+            e["x1"] = Value::from(x1.vec.iter().take(n).map(rat_of).collect::<Vec<Value>>());
+            e["x2"] = Value::from(x2.vec.iter().take(n).map(rat_of).collect::<Vec<Value>>());
         } else if x1.size() == n && x2.size() == n {
             let (c1, c2) = (vec_cdd(x1), vec_cdd(x2));
             let d: Vec<CDD> = (0..n).map(|i| c1[i].sub(c2[i])).collect();
@@ -410,8 +419,8 @@ fn run_seq<T: GEl>(case: &Value, out: &mut Out) {
         let nonsing = cur.as_ref().map(|(re, im)| nonsingular_mod_p(re, im, n)).unwrap_or(false);
         match gets(st, "op") {
             "det" => { if let Some((re, _)) = &cur { if !is_rat::<T>() || bareiss_fits(re, n).is_some() { q_det(&meta, &m, None, out); } } }
-            "inverse" => { if let Some((re, _)) = &cur { if nonsing && (if is_rat::<T>() { inverse_fits(re, n) } else { kappa_ok(&mat_cdd(&m), n) }) { q_inverse(&meta, &m, true, out); } } }
-            "solve" => { if let Some((re, _)) = &cur { let b = svec::<T>(st, "b"); if nonsing && (!is_rat::<T>() || solve_fits(re, n, &ivec(&st["b"]))) { q_solve(&meta, &m, &b, None, out); } } }
+            "inverse" => { if let Some((re, _)) = &cur { if nonsing && guarded(|| if is_rat::<T>() { inverse_fits(re, n) } else { kappa_ok(&mat_cdd(&m), n) }).unwrap_or(false) { q_inverse(&meta, &m, true, out); } } }
+            "solve" => { if let Some((re, _)) = &cur { let b = svec::<T>(st, "b"); if nonsing && (!is_rat::<T>() || guarded(|| solve_fits(re, n, &ivec(&st["b"]))).unwrap_or(false)) { q_solve(&meta, &m, &b, None, out); } } }
             // calls whose results are discarded: they give a memoising implementation the opportunity to cache
             "prime" => { let _ = guarded(|| m.determinant()); if nonsing { let _ = guarded(|| m.inverse()); } }
             _ => { let _ = guarded(|| mutate(&mut m, st)); }
@@ -423,7 +432,30 @@ fn run<T: GEl>(case: &Value, out: &mut Out) {
     match gets(case, "kind") { "solve" => run_solve::<T>(case, out), "det" => run_det::<T>(case, out), "seq" => run_seq::<T>(case, out),
         k => { eprintln!("TOOL-ERROR unknown gauss case kind {}", k); std::process::exit(2) } }
 }
+/// a part of a history whose results are not logged: every LU-based entry point is called once (panics are caught)
+fn run_quiet<T: GEl>(part: &Value) {
+    let a0 = build_mat::<T>(part); let n = a0.rows();
+    let b = if part.get("b").is_some() { build_rhs::<T>(part) } else { Vector::create((0..n).map(|i| a0[(i, 0)]).collect()) };
+    let _ = guarded(|| a0.determinant());
+    if gets(part, "kind") == "solve" || flag(part, "inv", false) {
+        let _ = guarded(|| a0.inverse());
+        let mut c = a0.clone(); let _ = guarded(|| c.solve_lu(&b));
+        let mut c = a0.clone(); let _ = guarded(|| c.solve_basic(&b));
+    }
+    let mut c = a0.clone(); let _ = guarded(|| c.lu_decomp_in_place());
+}
+/// kind "mix": a HISTORY of calls of different sizes, element types and entry points in one case (so that a replay
+/// re-executes the whole history): state leaking from one call into the next (static / thread-local scratch, capacity reuse)
+fn run_mix(case: &Value, out: &mut Out) {
+    for (k, part) in case["parts"].as_array().unwrap().iter().enumerate() {
+        let mut p = part.clone(); p["cid"] = case["cid"].clone(); p["mixk"] = json!(k);
+        if flag(&p, "quiet", false) {
+            match gets(&p, "ty") { "rat" => run_quiet::<Rat>(&p), "f64" => run_quiet::<f64>(&p), _ => run_quiet::<Cmplx>(&p) }
+        } else { exec(&p, out); }
+    }
+}
 pub fn exec(case: &Value, out: &mut Out) {
+    if gets(case, "kind") == "mix" { return run_mix(case, out); }
     match gets(case, "ty") { "rat" => run::<Rat>(case, out), "f64" => run::<f64>(case, out), "cx" => run::<Cmplx>(case, out),
         t => { eprintln!("TOOL-ERROR unknown type {}", t); std::process::exit(2) } }
 }
@@ -530,11 +562,16 @@ fn fam_lowrank(rng: &mut StdRng, n: usize, d: &Draw, rank: usize) -> Gm {
 /// resolve the tiny markers into real binary exponents
 fn final_exps(g: &Gm) -> Vec<i64> { g.ex.iter().map(|e| if *e <= TINY_MARK { -(TINY_MARK - *e) } else { *e }).collect() }
 
-struct Sink<'a> { out: &'a mut Out, cid: i64, counts: std::collections::BTreeMap<String, i64> }
+/// cases are collected first: the histories ("mix" cases) are assembled from them and written in front
+struct Sink<'a> { out: &'a mut Out, buf: Vec<Value>, counts: std::collections::BTreeMap<String, i64> }
 impl<'a> Sink<'a> {
-    fn push(&mut self, mut c: Value) { self.cid += 1; c["cid"] = json!(self.cid); c["suite"] = json!("gauss");
+    fn push(&mut self, mut c: Value) { c["suite"] = json!("gauss");
         *self.counts.entry(format!("{}/{}/{}", gets(&c, "kind"), gets(&c, "ty"), gets(&c, "fam"))).or_insert(0) += 1;
-        self.out.raw(&c); }
+        self.buf.push(c); }
+    fn finish(&mut self, mixes: Vec<Value>) {
+        let mut cid = 0i64;
+        for mut c in mixes.into_iter().chain(std::mem::take(&mut self.buf).into_iter()) { cid += 1; c["cid"] = json!(cid); c["suite"] = json!("gauss"); self.out.raw(&c); }
+    }
 }
 fn case_json(ty: &str, kind: &str, fam: &str, g: &Gm) -> Value {
     let n = g.n;
@@ -681,10 +718,19 @@ fn cond_ok(g: &Gm, _cx: bool) -> bool {
 /// tier: "quick" | "thorough", optionally followed by ":c01" or ":c02" to generate one property's cases only
 pub fn gen(tier: &str, seed: u64, out: &mut Out) {
     let mut it = tier.split(':'); let t = it.next().unwrap_or("quick"); let which = it.next().unwrap_or("");
-    let mut sink = Sink { out, cid: 0, counts: Default::default() };
-    if which != "c02" { gen_solve(t, seed, &mut sink); gen_solve_hard(t, seed, &mut sink); gen_seq(t, seed, "c01", &mut sink); gen_ill(t, seed, &mut sink); }
-    if which != "c01" { gen_det(t, seed, &mut sink); gen_det_hard(t, seed, &mut sink); gen_seq(t, seed, "c02", &mut sink); }
+    let mut sink = Sink { out, buf: Vec::new(), counts: Default::default() };
+    let mut mixes = Vec::new();
+    if which != "c02" {
+        gen_solve(t, seed, &mut sink); gen_solve_hard(t, seed, &mut sink); gen_seq(t, seed, "c01", &mut sink); gen_ill(t, seed, &mut sink); gen_banded(t, seed, "solve", &mut sink);
+        mixes.extend(gen_mix(t, seed, "solve", &sink.buf));
+    }
+    let mark = sink.buf.len();
+    if which != "c01" {
+        gen_det(t, seed, &mut sink); gen_det_hard(t, seed, &mut sink); gen_seq(t, seed, "c02", &mut sink); gen_banded(t, seed, "det", &mut sink);
+        mixes.extend(gen_mix(t, seed, "det", &sink.buf[mark..]));
+    }
     if std::env::var("GAUSS_COUNTS").is_ok() { for (k, v) in &sink.counts { eprintln!("{} {}", k, v); } }
+    sink.finish(mixes);
 }
 
 // ------------------------------------------------------------------ hardening families (special exact values, extreme magnitudes, sequences)
@@ -1054,6 +1100,60 @@ fn gen_ill(tier: &str, seed: u64, sink: &mut Sink) {
             if rng.gen_bool(0.5) { push_float_solve(sink, ty, &format!("ill_{}+b_A1", name), n, a, &matvec_cf(a, &ones, n)); }
             let br: Vec<Cf> = (0..n).map(|_| rnd(&mut rng)).collect();
             push_float_solve(sink, ty, &format!("ill_{}+b_rand", name), n, a, &br);
+        }
+    } } }
+}
+
+// ------------------------------------------------------------------ histories and banded / small-diagonal matrices
+/// histories of 8 calls whose sizes zig-zag (8, 1, 7, 2, ...), mixing element types; about 40 % of the parts are quiet
+fn gen_mix(tier: &str, seed: u64, kind: &str, pool: &[Value]) -> Vec<Value> {
+    let mut rng = rng(seed, if kind == "solve" { 808 } else { 809 });
+    let cand: Vec<&Value> = pool.iter().filter(|c| gets(c, "kind") == kind).collect();
+    let mut out = Vec::new();
+    if cand.is_empty() { return out; }
+    let nmix = if tier == "quick" { 60 } else { 500 };
+    for m in 0..nmix {
+        // choose parts so that all sizes occur: one candidate per target size where available
+        let mut parts: Vec<Value> = Vec::new();
+        let mut sizes: Vec<usize> = (1..=8).collect(); sizes.shuffle(&mut rng);
+        for target in sizes { for _ in 0..30 { let c = cand[rng.gen_range(0..cand.len())]; if getu(c, "n") == target { parts.push(c.clone()); break; } } }
+        parts.sort_by_key(|c| std::cmp::Reverse(getu(c, "n")));
+        let mut zig = Vec::new(); let (mut lo, mut hi) = (0usize, parts.len());
+        while lo < hi { zig.push(parts[lo].clone()); lo += 1; if lo < hi { hi -= 1; zig.push(parts[hi].clone()); } }
+        if m % 3 == 1 { zig.reverse(); }
+        let mut nlogged = 0; let zl = zig.len();
+        for (k, p) in zig.iter_mut().enumerate() { p.as_object_mut().unwrap().remove("cid"); let quiet = k + 1 < zl && rng.gen_bool(0.4); if quiet { p["quiet"] = json!(true); } else { nlogged += 1; } }
+        if nlogged == 0 { continue; }
+        out.push(json!({"kind": "mix", "ty": "mix", "fam": "mix", "n": zig.len(), "parts": zig}));
+    }
+    out
+}
+/// small-integer band matrices stored densely, with a small diagonal and larger sub-diagonals: the exchange at step k brings up
+/// a row that reaches further to the right than the row it replaces; and lower triangular + one super-diagonal likewise
+fn fam_banded(rng: &mut StdRng, n: usize, d: &Draw, kl: usize, ku: usize) -> Gm {
+    let mut g = Gm::zeros(n);
+    let small = Draw { cx: d.cx, amax: 1 };
+    for i in 0..n { for j in 0..n {
+        if i == j { g.set(i, j, small.any(rng)); }
+        else if i > j && i - j <= kl { g.set(i, j, (rng.gen_range(2..=d.amax.max(2)) * if rng.gen_bool(0.5) { 1 } else { -1 }, if d.cx { rng.gen_range(-1..=1) } else { 0 })); }
+        else if j > i && j - i <= ku { g.set(i, j, d.any(rng)); }
+    } }
+    g
+}
+fn gen_banded(tier: &str, seed: u64, kind: &str, sink: &mut Sink) {
+    let mut rng = rng(seed, 910);
+    let reps = if tier == "quick" { 2 } else { 12 };
+    for _rep in 0..reps { for n in 2..=8usize { for ty in ["rat", "f64", "cx"] {
+        let cx = ty == "cx"; let rat = ty == "rat";
+        let d = Draw { cx, amax: if rat { [4, 4, 4, 4, 3, 3, 2, 2, 2][n] } else { 6 } };
+        for (kl, ku) in [(1usize, 1usize), (1, 2), (2, 1), (2, 2), (n - 1, 1), (n - 1, 0)] {
+            let name = if kl == n - 1 { format!("lowtri_ku{}", ku) } else { format!("band_{}_{}", kl, ku) };
+            for _try in 0..40 {
+                let g = fam_banded(&mut rng, n, &d, kl, ku);
+                let ok = if kind == "solve" { let b = b_random(&mut rng, n, cx, 3); push_solve(sink, ty, &name, &g, &b, &vec![0; n], 1) }
+                         else { g.nonsingular() && push_det(sink, ty, &name, &g, 1, true, false) };
+                if ok { break; }
+            }
         }
     } } }
 }
